@@ -3,4 +3,5 @@ INVARIANT Emit
 INVARIANT Solution
 INVARIANT SameAsSmall
 INVARIANT ChainInduction
+INVARIANT PruneSane
 CHECK_DEADLOCK FALSE
